@@ -1184,6 +1184,30 @@ fire("c15-max-scalar-array-cast-to-array-dtype", "C15", ARRAY,
      "@max.register((int, float), array)\ndef _max(x, y):\n    return np.clip(y, x, None)\n", "@max.register((int, float), array)\ndef _max(x, y):\n    return np.clip(y, x, None).astype(y.dtype, copy=False)\n",
      "R15.14", "_max")
 
+
+# ---- round 6 second wave
+AFFINE = "funsor/affine.py"
+INTEGRATE = "funsor/integrate.py"
+fire("c04-slice-composition-start-unscaled", "C04", TERMS,
+     "            start = self.slice.start + self.slice.step * index.slice.start\n", "            start = self.slice.start + index.slice.start\n", "R04.18", "Slice.eager_subs")
+silent("c04-s-slice-composition-commuted", "C04", TERMS,
+       "            start = self.slice.start + self.slice.step * index.slice.start\n", "            start = index.slice.start * self.slice.step + self.slice.start\n")
+fire("c04-rename-clash-single-pass", "C04", TENSOR,
+     "        while True:\n            clashing = {\n                k\n                for k in renamed\n                if subs[k].name in self.inputs and subs[k].name not in renamed\n            }\n            if not clashing:\n                break\n            renamed -= clashing\n",
+     "        renamed -= {\n            k\n            for k in renamed\n            if subs[k].name in self.inputs and subs[k].name not in renamed\n        }\n", "R04.19", "Tensor.eager_subs")
+fire("c04-integrate-delta-substitutes-every-point", "C04", INTEGRATE,
+     "    subs = tuple(\n        (name, point)\n        for name, (point, log_density) in delta.terms\n        if name in reduced_names\n    )\n",
+     "    subs = tuple((name, point) for name, (point, log_density) in delta.terms)\n", "R04.20", "eager_integrate")
+fire("c04-affine-reduce-ignores-op", "C04", AFFINE,
+     "    if fn.op is ops.add:\n        reduced_names = frozenset(v.name for v in fn.reduced_vars)\n        return affine_inputs(fn.arg) - reduced_names\n    return frozenset()\n",
+     "    return affine_inputs(fn.arg) - frozenset(v.name for v in fn.reduced_vars)\n", "R04.21", "_#4")
+V.append(dict(id="c18-trace-record-from-call-site-arguments-only", prop="C18", kind="fire", expect_rule="R18.7", expect_in="Op.__call__",
+              edits=[(OP, "        bound = cls.signature.bind_partial(*args, **kwargs)\n",
+                      "        bound = cls.signature.bind_partial(*args, **kwargs)\n        call_args, call_kwargs = bound.args[cls.arity :], bound.kwargs\n"),
+                     (OP, "                op = cls(*args[cls.arity :], **kwargs)\n", "                op = cls(*call_args, **call_kwargs)\n")]))
+fire("c18-min-array-scalar-copied-from-max", "C18", ARRAY,
+     "@min.register(array, (int, float))\ndef _min(x, y):\n    return np.clip(x, None, y)\n", "@min.register(array, (int, float))\ndef _min(x, y):\n    return np.clip(x, y, None)\n", "R18.14", "min")
+
 # ===== derived variants: must stay at the END of this file (they enumerate every rename() variant above) =====
 # `if c: A else: B` -> `if not c: B else: A` in the anchor functions (behaviour-preserving)
 def invert(prop, file, qual):
